@@ -38,6 +38,8 @@ from custom_components.pyscript.mqtt import Mqtt
 from custom_components.pyscript.state import State
 from custom_components.pyscript.webhook import Webhook
 
+logging.getLogger().addHandler(logging.NullHandler())  # never fall back to the stderr "last resort" handler
+
 UTC = dt.timezone.utc
 DEFAULT_START_UTC = dt.datetime(2020, 7, 1, 19, 0, 0, tzinfo=UTC)  # 12:00 local (US/Pacific, PDT)
 RAMDISK = "/dev/shm" if os.path.isdir("/dev/shm") else tempfile.gettempdir()
